@@ -205,6 +205,27 @@ func arityClass(a int) string {
 }
 
 func replicateScenario(r *R) {
+	if r.Choose(4, "elem-type") == 3 {
+		// interface-typed elements, one of which is a nil interface value
+		nilAt := r.Choose(4, "nil-index")
+		r.Probe("replicate-interface-elements")
+		replicateRun[any](r, func(v int) any {
+			if v == nilAt {
+				return nil
+			}
+			return v
+		}, func(x any) int {
+			if x == nil {
+				return nilAt
+			}
+			return x.(int)
+		})
+		return
+	}
+	replicateRun[int](r, func(v int) int { return v }, func(v int) int { return v })
+}
+
+func replicateRun[T any](r *R, enc func(int) T, dec func(T) int) {
 	nd := r.Choose(4, "dsts")
 	if r.Choose(12, "very-many-dsts") == 11 {
 		nd = 62 + r.Choose(8, "dsts-over-60")
@@ -216,11 +237,11 @@ func replicateScenario(r *R) {
 		r.Probe("replicate-many-dsts")
 	}
 	n := r.Choose(5, "count")
-	src := make(chan int, r.Choose(2, "srcbuf"))
-	dsts := make([]chan int, nd)
-	wo := make([]chan<- int, nd)
+	src := make(chan T, r.Choose(2, "srcbuf"))
+	dsts := make([]chan T, nd)
+	wo := make([]chan<- T, nd)
 	for i := range dsts {
-		dsts[i] = make(chan int, r.Choose(2, "dstbuf"))
+		dsts[i] = make(chan T, r.Choose(2, "dstbuf"))
 		wo[i] = dsts[i]
 	}
 	r.Logf("config: chans.Replicate dsts=%d count=%d", nd, n)
@@ -228,7 +249,7 @@ func replicateScenario(r *R) {
 	sim.GoNamed("producer", func() {
 		for j := 0; j < n; j++ {
 			Spin(r.Choose(2, "ppace"), "producer-pace")
-			sim.Send(src, j, "producer-send")
+			sim.Send(src, enc(j), "producer-send")
 		}
 		srcClosed = true
 		sim.Close(src, "producer-close")
@@ -236,6 +257,14 @@ func replicateScenario(r *R) {
 	returned := false
 	sim.GoNamed("replicator", func() {
 		sim.Self().Label = "chans.Replicate"
+		defer func() {
+			if p := recover(); p != nil {
+				if p == sim.Killed {
+					panic(p)
+				}
+				r.Violate("C12", "replicate/panic", "chans.Replicate panicked (%d destinations): %v", nd, p)
+			}
+		}()
 		chans.Replicate(src, wo...)
 		returned = true
 		sim.Self().Label = ""
@@ -250,7 +279,7 @@ func replicateScenario(r *R) {
 		sim.GoNamed(fmt.Sprintf("consumer%d", i), func() {
 			for got[i] < n {
 				Spin(pace, "consumer-pace")
-				v := sim.Recv(dsts[i], "consumer-recv")
+				v := dec(sim.Recv(dsts[i], "consumer-recv"))
 				r.Hist("recv", i, v)
 				if v != got[i] {
 					r.Violate("C12", "replicate/wrong-sequence", "destination %d received %d, expected %d", i, v, got[i])
@@ -335,6 +364,15 @@ func streamMergeScenario(r *R) {
 	r.Logf("config: stream.Merge arity=%d total=%d anyErr=%v blocks=%v closeAfter=%d", arity, total, anyErr, blocks, closeAfter)
 	if arity == 0 {
 		r.Probe("stream-merge-zero-inputs")
+	}
+	// some of the inputs may be the library's own constant streams: they yield nothing, so the
+	// item-level oracles below are unaffected
+	if nEmpty := []int{0, 0, 0, 1, 2}[r.Choose(5, "empty-inputs")]; nEmpty > 0 {
+		r.Probe("stream-merge-library-empty-inputs")
+		for k := 0; k < nEmpty; k++ {
+			at := r.Choose(len(ins)+1, "empty-at")
+			ins = append(ins[:at:at], append([]stream.Stream[int]{stream.Empty[int]()}, ins[at:]...)...)
+		}
 	}
 	m := stream.Merge(ins...)
 	cs := &Calls{r: r}
